@@ -1,5 +1,5 @@
 /- COMMITTED LAST-GOOD TRANSLATION (DESIGN §5) — written by bin/numgo-accept, never by hand.
-A verbatim copy of Generated/NumGo.lean as translated from /repo at 730f9af.
+A verbatim copy of Generated/NumGo.lean as translated from /repo at 1a3d12c.
 When the translator refuses a function on a later tree, Generated/NumGo.lean aliases the
 definition of the same name here (provided the Go signature recorded in `goSigs` is
 unchanged) and the `num` channel compares it with the Go original. -/
